@@ -301,3 +301,138 @@ func checkServerIndexes(e *Env, si *ServerInst, st DBState, oracle string) {
 		e.Logf("C05: database busy: %s", why)
 	}
 }
+
+// ---- S7: a bare TableCache driven by direct Create/Update/Delete calls -----------------
+
+// ModelFromRow builds a model struct (pointer) of the given type from a row.
+func ModelFromRow(t *Table, ty reflect.Type, uuid string, r Row) any {
+	pv := reflect.New(ty)
+	v := pv.Elem()
+	v.FieldByName("UUID").SetString(uuid)
+	setAtom := func(f reflect.Value, a Atom) {
+		switch f.Kind() {
+		case reflect.Int:
+			f.SetInt(a.I)
+		case reflect.Float64:
+			f.SetFloat(a.R)
+		case reflect.Bool:
+			f.SetBool(a.B)
+		case reflect.String:
+			f.SetString(a.S)
+		}
+	}
+	for _, cn := range t.ColNames {
+		f := v.FieldByName(FieldName(cn))
+		val := r[cn]
+		switch f.Kind() {
+		case reflect.Map:
+			m := reflect.MakeMap(f.Type())
+			for _, p := range val.Map {
+				k := reflect.New(f.Type().Key()).Elem()
+				x := reflect.New(f.Type().Elem()).Elem()
+				setAtom(k, p.K)
+				setAtom(x, p.V)
+				m.SetMapIndex(k, x)
+			}
+			f.Set(m)
+		case reflect.Slice:
+			s := reflect.MakeSlice(f.Type(), 0, len(val.Set))
+			for _, a := range val.Set {
+				x := reflect.New(f.Type().Elem()).Elem()
+				setAtom(x, a)
+				s = reflect.Append(s, x)
+			}
+			f.Set(s)
+		case reflect.Pointer:
+			if len(val.Set) == 1 {
+				x := reflect.New(f.Type().Elem())
+				setAtom(x.Elem(), val.Set[0])
+				f.Set(x)
+			}
+		default:
+			if len(val.Set) == 1 {
+				setAtom(f, val.Set[0])
+			}
+		}
+	}
+	return pv.Interface()
+}
+
+// bareCache mirrors the database through direct RowCache calls, applied in a
+// seeded random order inside each batch (one batch = one committed transaction).
+type bareCache struct {
+	tc  *cache.TableCache
+	rng interface{ Intn(int) int }
+}
+
+func newBareCache(e *Env, rng interface{ Intn(int) int }) *bareCache {
+	cm := e.CM
+	cm.SetIndexes(clientIndexes(e.Sch))
+	dbm, errs := model.NewDatabaseModel(e.LibSch, cm)
+	if len(errs) > 0 {
+		e.Fatalf("bare cache model: %v", errs)
+		return nil
+	}
+	tc, err := cache.NewTableCache(dbm, nil, nil)
+	if err != nil {
+		e.Fatalf("bare cache: %v", err)
+		return nil
+	}
+	return &bareCache{tc: tc, rng: rng}
+}
+
+// apply brings the bare cache from before to after with direct calls and then
+// compares every index with a scan.
+func (b *bareCache) apply(e *Env, before, after DBState) {
+	all := &MonReq{Tables: map[string]*MonTable{}}
+	for _, tn := range e.Sch.TableNames {
+		all.Tables[tn] = &MonTable{Columns: e.Sch.Tables[tn].ColNames, Insert: true, Delete: true, Modify: true}
+	}
+	ch := all.Expected(before, after)
+	for i := len(ch) - 1; i > 0; i-- {
+		j := b.rng.Intn(i + 1)
+		ch[i], ch[j] = ch[j], ch[i]
+	}
+	ok, why := e.Sim.Try(func() {
+		for _, c := range ch {
+			rc := b.tc.Table(c.Table)
+			t := e.Sch.Tables[c.Table]
+			var err error
+			switch c.Kind {
+			case "insert":
+				err = rc.Create(c.UUID, ModelFromRow(t, e.Types[c.Table], c.UUID, after[c.Table][c.UUID]), false)
+			case "modify":
+				_, err = rc.Update(c.UUID, ModelFromRow(t, e.Types[c.Table], c.UUID, after[c.Table][c.UUID]), false)
+			case "delete":
+				err = rc.Delete(c.UUID)
+			}
+			if err != nil {
+				e.ViolateK("C05.direct-call", c.Kind, "direct %s of %s/%s on a bare cache that mirrors the database failed: %v", c.Kind, c.Table, c.UUID, err)
+				return
+			}
+			e.Probes["c05_direct_calls"]++
+		}
+		cidx := b.tc.DatabaseModel().Client()
+		for _, tn := range e.Sch.TableNames {
+			checkRowCacheIndexes(e, b.tc.Table(tn), e.Sch.Tables[tn], cidx.Indexes(tn), "bare cache (direct Create/Update/Delete)", e.Sch.Tables[tn].ColNames)
+			if e.Stopped() {
+				return
+			}
+		}
+		// and it must hold exactly the database's rows
+		got := DBState{}
+		for _, tn := range e.Sch.TableNames {
+			got[tn] = TableData{}
+			for u, m := range b.tc.Table(tn).Rows() {
+				r, _ := RowFromModel(e.Sch.Tables[tn], m)
+				got[tn][u] = r
+			}
+		}
+		if d := DiffStates(after, got, e.Sch.TableNames, nil); d != "" {
+			e.ViolateK("C05.direct-call", "contents", "bare cache differs from the rows written into it (written vs read):\n%s", d)
+		}
+	})
+	if !ok {
+		e.Logf("bare cache busy: %s", why)
+	}
+}
